@@ -100,6 +100,39 @@ def _neutralise(path, lineno):
     open(path, "w").write("\n".join(lines) + "\n")
 
 
+def _neutralise_known_walks(ctx, path):
+    """After TLC met a known finding in this trace: every other walk of the trace whose first
+    corruption error on the (intact) table has the signature of a listed known finding is
+    neutralised in the same pass instead of one TLC round each.  Sound: the model never answers
+    "corrupt" on an intact table, so each of these lines is one TLC would stop at, and it is
+    classified by the same _sig; walks with any other signature are left for TLC to report."""
+    lines = open(path).read().splitlines()
+    evs = [json.loads(x) for x in lines]
+    tab, itn, start, skip, n = None, None, 0, False, 0
+    for i, ev in enumerate(evs):
+        kind = ev["ev"]
+        if kind == "table":
+            tab = ev
+        elif kind == "iternew":
+            itn, start, skip = ev, i, False
+        elif kind == "iter" and not skip and itn is not None and ev.get("err") == "corrupt":
+            skip = True                      # only the first corruption error of a walk is classified
+            sig = _sig(ev, tab, itn)
+            if not report_violation(ctx, sig, "line %d of %s (same finding, found by scanning)" % (i + 1, os.path.basename(path)), None):
+                end = i
+                while end < len(evs) - 1 and evs[end]["ev"] != "iterrel":
+                    end += 1
+                for j in range(start, end + 1):
+                    lines[j] = json.dumps({"ev": "note", "what": "known-finding", "was": evs[j]})
+                    evs[j] = {"ev": "note"}
+                n += 1
+            else:
+                ctx.violations.pop()         # not a known finding: leave the line for TLC to report with a replay
+    if n:
+        open(path, "w").write("\n".join(lines) + "\n")
+    return n
+
+
 def main(ctx):
     t = TIERS[ctx.tier]
     cfg = "TableMC_quick.cfg" if ctx.quick else "TableMC_thorough.cfg"
@@ -153,6 +186,7 @@ def main(ctx):
                                         "or ./check C13 --replay <this directory>"})
             if not report_violation(ctx, sig, what, rp):
                 _neutralise(tr["path"], r["hwm"])     # a listed known finding: check the rest of the trace
+                _neutralise_known_walks(ctx, tr["path"])
                 pending.append(tr)
         if not pending:
             break
@@ -205,6 +239,7 @@ def _sample_lines(path):
 
 
 def replay(ctx, path):
+    path = os.path.abspath(path)
     files = sorted(glob.glob(os.path.join(path, "*.ndjson"))) if os.path.isdir(path) else [path]
     bad = 0
     for f in files:
